@@ -31,7 +31,7 @@ func init() {
 		Rule: "random write programs (1..12 top-level operations, up to 5 builder levels) over AddUint8/16/24/32, AddBytes, AddUint{8,16,24,32}LengthPrefixed, AddASN1Int64/Uint64/BigInt/Enum/Int64WithTag/Boolean/ObjectIdentifier/OctetString/BitString/GeneralizedTime/NULL, AddASN1(tag){..}, MarshalASN1, Unwrite, " +
 			"on zero-value, NewBuilder(prefix) and NewFixedBuilder builders; payload and content lengths biased to 0/127/128/255/256/65535/65536 (rarely 2^24); mirrored read program with the matching String readers (reader variant chosen at random among the matching ones); " +
 			"at element positions every optional reader is additionally run on a copy with the present tag (when the element has the reader's shape) and with an absent tag, with the following elements still in the String; " +
-			"non-trivial = program whose build succeeded and whose mirrored read program was executed to the end or to the first divergence; distinct by hash of the program text",
+			"every 2..6 consecutive programs form a batch: all are built first (Bytes() results held as returned), then read back, then the byte slices readers handed out are re-checked; non-trivial = program whose build succeeded and whose mirrored read program was executed to the end or to the first divergence; distinct by hash of the program text",
 		MinNontrivial:         12000,
 		MinNontrivialThorough: 1000000,
 		Shards:                16,
@@ -740,6 +740,29 @@ type progRun struct {
 	outside bool // stopped at a construct outside the reader's domain (large OID arc)
 	probesP int
 	probesA int
+
+	// carried from the build phase to the (later) read phase
+	ops     []*op
+	held    []byte // the Builder's Bytes() result exactly as returned (not copied)
+	snap    []byte // copy taken right after Bytes() returned
+	prefix  int
+	bad     string
+	plain   string
+	heldVal []heldValue
+}
+
+// heldValue is a slice a reader handed out; it must stay intact while other Strings are read.
+type heldValue struct {
+	reader string
+	got    []byte
+	n      int
+	salt   int
+}
+
+func (p *progRun) hold(reader string, got []byte, o *op) {
+	if len(p.heldVal) < 6 && len(got) > 0 && len(got) <= 70000 {
+		p.heldVal = append(p.heldVal, heldValue{reader, got, o.n, o.salt})
+	}
 }
 
 func (p *progRun) fail(key, format string, a ...any) {
@@ -1056,6 +1079,7 @@ func (p *progRun) readOne(s *zcb.String, o *op, content []byte) (reader string, 
 		case 0:
 			var v []byte
 			ok = s.ReadBytes(&v, o.n)
+			p.hold("ReadBytes", v, o)
 			return "ReadBytes", ok, bytes.Equal(v, want)
 		case 1:
 			v := make([]byte, o.n)
@@ -1144,10 +1168,12 @@ func (p *progRun) readOne(s *zcb.String, o *op, content []byte) (reader string, 
 		case 0:
 			var v []byte
 			ok = s.ReadASN1Bytes(&v, zcbasn1.OCTET_STRING)
+			p.hold("ReadASN1Bytes", v, o)
 			return "ReadASN1Bytes", ok, bytes.Equal(v, want)
 		case 1:
 			var v zcb.String
 			ok = s.ReadASN1(&v, zcbasn1.OCTET_STRING)
+			p.hold("ReadASN1", v, o)
 			return "ReadASN1", ok, bytes.Equal(v, want)
 		case 2:
 			var v zcb.String
@@ -1167,6 +1193,7 @@ func (p *progRun) readOne(s *zcb.String, o *op, content []byte) (reader string, 
 		}
 		var v []byte
 		ok = s.ReadASN1BitStringAsBytes(&v)
+		p.hold("ReadASN1BitStringAsBytes", v, o)
 		return "ReadASN1BitStringAsBytes", ok, bytes.Equal(v, want)
 	case kGenTime:
 		var v time.Time
@@ -1247,17 +1274,47 @@ func runC21(c *core.Ctx) {
 	defer strictMode(c)()
 	k := &c21{c: c}
 	total := c.Pick(30000, 3000000)
-	for idx := c.Shard; idx < total; idx += c.NShards {
-		id := fmt.Sprintf("prog-%d", idx)
-		if c.OnlyCase != "" && c.OnlyCase != id {
+	// Programs are executed in batches of 2..6: every program of a batch is BUILT first and its Bytes()
+	// result is held as returned; only then are the mirrored read programs run, each on its own held
+	// output. A Builder that hands out storage a later Builder overwrites, or a reader whose results do
+	// not survive later reads, diverges here although each program alone would round-trip.
+	for idx := c.Shard; idx < total; {
+		size := 2 + int(uint32(idx)*2654435761>>9)%5
+		var batch []*progRun
+		hit := c.OnlyCase == ""
+		first := idx
+		for j := 0; j < size && idx < total; j, idx = j+1, idx+c.NShards {
+			if fmt.Sprintf("prog-%d", idx) == c.OnlyCase {
+				hit = true
+			}
+		}
+		if !hit {
 			continue
 		}
-		k.program(idx, id)
+		for i := first; i < idx; i += c.NShards {
+			if p := k.prepare(i, fmt.Sprintf("prog-%d", i)); p != nil {
+				batch = append(batch, p)
+			}
+		}
+		for _, p := range batch {
+			k.finish(p)
+		}
+		// values handed out by readers of earlier programs must have survived the later reads
+		for _, p := range batch {
+			for _, h := range p.heldVal {
+				if !bytes.Equal(h.got, payload(h.n, h.salt)) {
+					p.fail("value-returned-by-reader-changed-after-later-reads:"+h.reader, "%s returned the written %d bytes, but after reading other Strings the slice holds %s", h.reader, h.n, hx(head(h.got)))
+				}
+			}
+		}
+		c.Count("batches", 1)
+		c.Max("batch_size", len(batch))
 	}
 	k.lim.flush(c)
 }
 
-func (k *c21) program(idx int, id string) {
+// prepare generates and builds one program; it returns nil when there is nothing to read back.
+func (k *c21) prepare(idx int, id string) *progRun {
 	c := k.c
 	rng := progRng(c.Seed, idx)
 	g := &pgen{rng: rng, bigLeft: 1, opsLeft: 40}
@@ -1301,10 +1358,10 @@ func (k *c21) program(idx int, id string) {
 		build(b, ops, len(prefix), true, st)
 		out, err = b.Bytes()
 	})
-	p := &progRun{k: k, id: id, text: fmt.Sprintf("[builder variant %d] %s", variant, text), rng: rng}
+	p := &progRun{k: k, id: id, text: fmt.Sprintf("[builder variant %d] %s", variant, text), rng: rng, ops: ops, bad: bad, plain: text}
 	if pi != nil {
 		p.fail("builder-"+pi.Key, "builder panicked: %s\n%s", pi.Value, pi.Stack)
-		return
+		return nil
 	}
 	c.Count("over_unwrite_refused", st.overUnwriteOK)
 	if st.overUnwriteNo > 0 {
@@ -1313,39 +1370,57 @@ func (k *c21) program(idx int, id string) {
 	if err != nil {
 		if bad != "" {
 			c.Count("builder_error_expected:"+bad, 1)
-			return
+			return nil
 		}
 		p.fail("builder-error-on-valid-program", "Bytes() returned %v", err)
-		return
+		return nil
 	}
 	if bad != "" {
-		// the Builder accepted something it documents as an error; the read-back below decides
+		// the Builder accepted something it documents as an error; the read-back decides
 		c.Count("builder_accepted_expected_error:"+bad, 1)
 	}
 	if st.failed != "" && bad == "" {
 		p.fail("builder-error-on-valid-program", "a child builder reported %s", st.failed)
-		return
+		return nil
 	}
 	if len(out) < len(prefix) || !bytes.Equal(out[:len(prefix)], prefix) {
 		p.fail("newbuilder-prefix-buffer-not-preserved", "prefix %s", hx(prefix))
-		return
+		return nil
 	}
-	content := out[len(prefix):]
-	p.out = content
-	if bad == "" && !bytes.Equal(content, ref) {
+	p.held, p.snap, p.prefix = out, append([]byte{}, out...), len(prefix)
+	p.out = p.snap[p.prefix:]
+	if bad == "" && !bytes.Equal(p.out, ref) {
 		c.Count("ref_encoder_disagrees", 1)
 		if c.WantSample() {
-			c.Sample(map[string]any{"ref_encoder_disagrees": text, "builder": core.Hex(content), "reference": core.Hex(ref)})
+			c.Sample(map[string]any{"ref_encoder_disagrees": text, "builder": core.Hex(p.out), "reference": core.Hex(ref)})
 		}
 	}
-	// reading works on a private copy: readers alias their input
-	s := zcb.String(append([]byte{}, content...))
+	return p
+}
+
+// finish runs the mirrored read program on the output the Builder returned (held since prepare).
+func (k *c21) finish(p *progRun) {
+	c := k.c
+	ops, bad, text := p.ops, p.bad, p.plain
+	if !bytes.Equal(p.held, p.snap) {
+		p.fail("builder-output-changed-after-later-builder-calls", "the slice returned by Bytes() no longer holds what it held when it was returned: now %s", hx(head(p.held)))
+		return
+	}
+	content := p.snap[p.prefix:]
+	// the readers run on the slice the Builder returned; expectations come from the snapshot
+	s := zcb.String(p.held[p.prefix:])
+	if len(s) == 0 {
+		s = zcb.String([]byte{}) // a nil String refuses zero-length reads (same in x/crypto)
+	}
 	if pi := core.Guard(func() { p.read(&s, ops, content) }); pi != nil {
 		p.fail("reader-"+pi.Key, "reader panicked: %s\n%s", pi.Value, pi.Stack)
 		return
 	}
 	if !p.stopped && !s.Empty() {
 		p.fail("input-not-empty-after-reading-all-written-elements", "%d bytes left", len(s))
+	}
+	if !bytes.Equal(p.held, p.snap) {
+		p.fail("builder-output-changed-while-reading", "reading modified the bytes it was reading")
 	}
 	if bad != "" && !p.stopped {
 		c.Count("builder_accepted_expected_error_but_read_back_ok:"+bad, 1)
